@@ -51,6 +51,30 @@ theorem res_restart {l : Life P} {r : Res P} (h : l.restart.res? = some r) : l.r
   rcases l with _ | st | _ | ⟨r, st⟩ | r <;> try rfl
   all_goals cases st <;> rfl
 
+theorem removedRes_eq_some {l : Life P} {r : Res P} : l.removedRes = some r ↔ l = .removed r := by
+  rcases l with _ | st | _ | ⟨r', st⟩ | r' <;> simp [removedRes]
+theorem removedRes_eq_none {l : Life P} : l.removedRes = none ↔ ∀ r, l ≠ .removed r := by
+  rcases l with _ | st | _ | ⟨r', st⟩ | r' <;> simp [removedRes]
+@[simp] theorem removedRes_restart (l : Life P) : l.restart.removedRes = l.removedRes := by
+  rcases l with _ | st | _ | ⟨r, st⟩ | r <;> try rfl
+  all_goals cases st <;> rfl
+theorem restart_eq_absent {l : Life P} : l.restart = .absent ↔ l = .absent ∨ l = .adding .sent := by
+  rcases l with _ | st | _ | ⟨r, st⟩ | r <;> try (simp [restart])
+  all_goals cases st <;> simp [restart]
+theorem restart_eq_adding {l : Life P} {st : Stage} : l.restart = .adding st ↔ l = .adding st ∧ st ≠ .sent := by
+  rcases l with _ | st' | _ | ⟨r, st'⟩ | r <;> try (simp [restart])
+  all_goals cases st' <;> cases st <;> simp [restart]
+theorem restart_eq_locked {l : Life P} : l.restart = .locked ↔ l = .locked ∨ ∃ r, l = .removing r .sent := by
+  rcases l with _ | st | _ | ⟨r, st⟩ | r <;> try (simp [restart])
+  all_goals cases st <;> simp [restart]
+theorem restart_eq_removing {l : Life P} {r : Res P} {st : Stage} :
+    l.restart = .removing r st ↔ l = .removing r st ∧ st ≠ .sent := by
+  rcases l with _ | st' | _ | ⟨r', st'⟩ | r' <;> try (simp [restart])
+  all_goals cases st' <;> cases st <;> simp [restart]
+theorem restart_eq_removed {l : Life P} {r : Res P} : l.restart = .removed r ↔ l = .removed r := by
+  rcases l with _ | st | _ | ⟨r', st⟩ | r' <;> try (simp [restart])
+  all_goals cases st <;> simp [restart]
+
 theorem not_committed {l : Life P} (h : l.committed = false) : l = .absent ∨ l = .adding .sent := by
   rcases l with _ | st | _ | ⟨r, st⟩ | r <;> try (simp [committed] at h)
   · exact Or.inl rfl
@@ -58,11 +82,15 @@ theorem not_committed {l : Life P} (h : l.committed = false) : l = .absent ∨ l
 
 end Life
 
-macro "life_grind" : tactic => `(tactic| grind [Life.sigO, Life.sigR, Life.revO, Life.revR, Life.restart,
-  Life.resolvedSigned, Life.res?, Life.removedRes, Life.committed, badSigned,
-  Life.resolvedSigned_sigO, Life.resolvedSigned_revO, Life.resolvedSigned_revR, Life.resolvedSigned_restart,
-  Life.res_sigO, Life.res_sigR, Life.res_revO, Life.res_revR, Life.res_restart,
-  Life.committed_sigR, Life.committed_revO, Life.committed_revR, Life.committed_restart, Life.not_committed])
+/-- for goals where the life cycles are constructor terms (after a case split). -/
+macro "life_grind" : tactic => `(tactic| grind [Life.resolvedSigned, Life.res?, Life.removedRes, Life.committed, badSigned,
+  Life.removedRes_eq_some])
+
+/-- for the restart step: no case split, characterisation lemmas instead. -/
+macro "restart_grind" : tactic => `(tactic| grind [Life.resolvedSigned, Life.res?, Life.removedRes, Life.committed,
+  Life.resolvedSigned_restart, Life.res_restart, Life.committed_restart, Life.removedRes_restart, Life.not_committed,
+  Life.restart_eq_absent, Life.restart_eq_adding, Life.restart_eq_locked, Life.restart_eq_removing,
+  Life.restart_eq_removed])
 
 section
 variable {P Hsh : Type} [DecidableEq P] [DecidableEq Hsh] (H : P → Hsh) (hash : Hsh)
@@ -101,187 +129,11 @@ structure Inv (s : Pair P) : Prop where
   down_removed_settle : ∀ p, s.down = .removed (.settle p) → p ∈ s.known
   resp_acked : s.respAcked = true → s.up.resolvedSigned.isSome = true
   sent_settle : ∀ p, Res.settle p ∈ s.sentUp → p ∈ s.known
+  mb_resp_circ : s.mbResp ≠ none → s.circ = .closing
+  up_rem_sent : ∀ r, s.up = .removing r .sent → s.circ = .absent ∨ s.circ = .closing
 
 theorem Inv.init : Inv H hash ({} : Pair P) := by
   constructor <;> simp [Life.resolvedSigned, Life.res?, Life.removedRes, Life.committed]
-
-
-set_option linter.unusedSimpArgs false
-set_option linter.unusedVariables false
-set_option linter.unusedSectionVars false
-
-theorem inv_upAdd {s s' : Pair P} (hI : Inv H hash s) (h : step H hash s (.upAdd) = some s') :
-    Inv H hash s' := by
-  obtain ⟨a1, a2, a3, a4, a5, a6, a7, a8, a9, a10, a11, a12, a13, a14, a15, a16, a17, a18, a19, a20, a21, a22, a23, a24, a25⟩ := hI
-  simp only [LndModel.C08.step] at h; split at h <;> cases h; constructor <;> life_grind
-
-theorem inv_downSettle {s s' : Pair P} (p : P) (hI : Inv H hash s) (h : step H hash s (.downSettle p) = some s') :
-    Inv H hash s' := by
-  obtain ⟨a1, a2, a3, a4, a5, a6, a7, a8, a9, a10, a11, a12, a13, a14, a15, a16, a17, a18, a19, a20, a21, a22, a23, a24, a25⟩ := hI
-  simp only [LndModel.C08.step, stepDownSettle] at h
-  split at h
-  · split at h
-    · split at h <;> cases h <;> constructor <;> life_grind
-    · cases h; constructor <;> life_grind
-  · cases h
-
-theorem inv_downFail {s s' : Pair P} (hI : Inv H hash s) (h : step H hash s (.downFail) = some s') :
-    Inv H hash s' := by
-  obtain ⟨a1, a2, a3, a4, a5, a6, a7, a8, a9, a10, a11, a12, a13, a14, a15, a16, a17, a18, a19, a20, a21, a22, a23, a24, a25⟩ := hI
-  simp only [LndModel.C08.step] at h; split at h <;> cases h; constructor <;> life_grind
-
-theorem inv_upSigPeer {s s' : Pair P} (hI : Inv H hash s) (h : step H hash s (.upSigPeer) = some s') :
-    Inv H hash s' := by
-  obtain ⟨a1, a2, a3, a4, a5, a6, a7, a8, a9, a10, a11, a12, a13, a14, a15, a16, a17, a18, a19, a20, a21, a22, a23, a24, a25⟩ := hI
-  rcases s with ⟨up, down, circ, fwdFilter, addAcked, resp, respAcked, mbAdd, mbResp, known, sentUp, signedUp, downCommitted, downAdds, envBad⟩
-  dsimp only at *
-  simp only [LndModel.C08.step] at h; cases h
-  rcases up with _ | st | _ | ⟨r, st⟩ | r <;> (try cases st) <;> dsimp only [Life.sigO, Life.revO, Life.revR] at * <;> constructor <;> life_grind
-
-theorem inv_upRevPeer {s s' : Pair P} (hI : Inv H hash s) (h : step H hash s (.upRevPeer) = some s') :
-    Inv H hash s' := by
-  obtain ⟨a1, a2, a3, a4, a5, a6, a7, a8, a9, a10, a11, a12, a13, a14, a15, a16, a17, a18, a19, a20, a21, a22, a23, a24, a25⟩ := hI
-  rcases s with ⟨up, down, circ, fwdFilter, addAcked, resp, respAcked, mbAdd, mbResp, known, sentUp, signedUp, downCommitted, downAdds, envBad⟩
-  dsimp only at *
-  simp only [LndModel.C08.step] at h; cases h
-  rcases up with _ | st | _ | ⟨r, st⟩ | r <;> (try cases st) <;> dsimp only [Life.sigO, Life.revO, Life.revR] at * <;> constructor <;> life_grind
-
-theorem inv_upSigBob {s s' : Pair P} (hI : Inv H hash s) (h : step H hash s (.upSigBob) = some s') :
-    Inv H hash s' := by
-  obtain ⟨a1, a2, a3, a4, a5, a6, a7, a8, a9, a10, a11, a12, a13, a14, a15, a16, a17, a18, a19, a20, a21, a22, a23, a24, a25⟩ := hI
-  rcases s with ⟨up, down, circ, fwdFilter, addAcked, resp, respAcked, mbAdd, mbResp, known, sentUp, signedUp, downCommitted, downAdds, envBad⟩
-  dsimp only at *
-  rcases up with _ | st | _ | ⟨r, st⟩ | r <;> (try cases st) <;> simp only [LndModel.C08.step, stepUpSigBob, Life.sigR] at h <;> cases h <;> constructor <;> life_grind
-
-theorem inv_upRevBob {s s' : Pair P} (hI : Inv H hash s) (h : step H hash s (.upRevBob) = some s') :
-    Inv H hash s' := by
-  obtain ⟨a1, a2, a3, a4, a5, a6, a7, a8, a9, a10, a11, a12, a13, a14, a15, a16, a17, a18, a19, a20, a21, a22, a23, a24, a25⟩ := hI
-  rcases s with ⟨up, down, circ, fwdFilter, addAcked, resp, respAcked, mbAdd, mbResp, known, sentUp, signedUp, downCommitted, downAdds, envBad⟩
-  dsimp only at *
-  simp only [LndModel.C08.step] at h; cases h
-  rcases up with _ | st | _ | ⟨r, st⟩ | r <;> (try cases st) <;> dsimp only [Life.sigO, Life.revO, Life.revR] at * <;> constructor <;> life_grind
-
-theorem inv_downSigBob {s s' : Pair P} (hI : Inv H hash s) (h : step H hash s (.downSigBob) = some s') :
-    Inv H hash s' := by
-  obtain ⟨a1, a2, a3, a4, a5, a6, a7, a8, a9, a10, a11, a12, a13, a14, a15, a16, a17, a18, a19, a20, a21, a22, a23, a24, a25⟩ := hI
-  rcases s with ⟨up, down, circ, fwdFilter, addAcked, resp, respAcked, mbAdd, mbResp, known, sentUp, signedUp, downCommitted, downAdds, envBad⟩
-  dsimp only at *
-  rcases down with _ | st | _ | ⟨r, st⟩ | r <;> (try cases st) <;> simp only [LndModel.C08.step, stepDownSigBob, Life.sigO] at h <;> cases h <;> constructor <;> life_grind
-
-theorem inv_downRevBob {s s' : Pair P} (hI : Inv H hash s) (h : step H hash s (.downRevBob) = some s') :
-    Inv H hash s' := by
-  obtain ⟨a1, a2, a3, a4, a5, a6, a7, a8, a9, a10, a11, a12, a13, a14, a15, a16, a17, a18, a19, a20, a21, a22, a23, a24, a25⟩ := hI
-  rcases s with ⟨up, down, circ, fwdFilter, addAcked, resp, respAcked, mbAdd, mbResp, known, sentUp, signedUp, downCommitted, downAdds, envBad⟩
-  dsimp only at *
-  rcases down with _ | st | _ | ⟨r, st⟩ | r <;> (try cases st) <;> simp only [LndModel.C08.step, Life.revO] at h <;> split at h <;> cases h <;> constructor <;> life_grind
-
-theorem inv_downSigPeer {s s' : Pair P} (hI : Inv H hash s) (h : step H hash s (.downSigPeer) = some s') :
-    Inv H hash s' := by
-  obtain ⟨a1, a2, a3, a4, a5, a6, a7, a8, a9, a10, a11, a12, a13, a14, a15, a16, a17, a18, a19, a20, a21, a22, a23, a24, a25⟩ := hI
-  rcases s with ⟨up, down, circ, fwdFilter, addAcked, resp, respAcked, mbAdd, mbResp, known, sentUp, signedUp, downCommitted, downAdds, envBad⟩
-  dsimp only at *
-  simp only [LndModel.C08.step] at h; cases h
-  rcases down with _ | st | _ | ⟨r, st⟩ | r <;> (try cases st) <;> dsimp only [Life.sigR] at * <;> constructor <;> life_grind
-
-theorem inv_downRevPeer {s s' : Pair P} (hI : Inv H hash s) (h : step H hash s (.downRevPeer) = some s') :
-    Inv H hash s' := by
-  obtain ⟨a1, a2, a3, a4, a5, a6, a7, a8, a9, a10, a11, a12, a13, a14, a15, a16, a17, a18, a19, a20, a21, a22, a23, a24, a25⟩ := hI
-  rcases s with ⟨up, down, circ, fwdFilter, addAcked, resp, respAcked, mbAdd, mbResp, known, sentUp, signedUp, downCommitted, downAdds, envBad⟩
-  dsimp only at *
-  rcases down with _ | st | _ | ⟨r, st⟩ | r <;> (try cases st) <;> simp only [LndModel.C08.step, stepDownRevPeer, Life.revR] at h <;> (try split at h) <;> cases h <;> constructor <;> life_grind
-
-theorem inv_setFwdFilter {s s' : Pair P} (hI : Inv H hash s) (h : step H hash s (.setFwdFilter) = some s') :
-    Inv H hash s' := by
-  obtain ⟨a1, a2, a3, a4, a5, a6, a7, a8, a9, a10, a11, a12, a13, a14, a15, a16, a17, a18, a19, a20, a21, a22, a23, a24, a25⟩ := hI
-  simp only [LndModel.C08.step] at h; split at h <;> cases h; constructor <;> life_grind
-
-theorem inv_commitCircuit {s s' : Pair P} (hI : Inv H hash s) (h : step H hash s (.commitCircuit) = some s') :
-    Inv H hash s' := by
-  obtain ⟨a1, a2, a3, a4, a5, a6, a7, a8, a9, a10, a11, a12, a13, a14, a15, a16, a17, a18, a19, a20, a21, a22, a23, a24, a25⟩ := hI
-  simp only [LndModel.C08.step] at h; split at h <;> cases h; constructor <;> life_grind
-
-theorem inv_reforward {s s' : Pair P} (hI : Inv H hash s) (h : step H hash s (.reforward) = some s') :
-    Inv H hash s' := by
-  obtain ⟨a1, a2, a3, a4, a5, a6, a7, a8, a9, a10, a11, a12, a13, a14, a15, a16, a17, a18, a19, a20, a21, a22, a23, a24, a25⟩ := hI
-  simp only [LndModel.C08.step] at h; split at h <;> cases h; constructor <;> life_grind
-
-theorem inv_switchFail {s s' : Pair P} (hI : Inv H hash s) (h : step H hash s (.switchFail) = some s') :
-    Inv H hash s' := by
-  obtain ⟨a1, a2, a3, a4, a5, a6, a7, a8, a9, a10, a11, a12, a13, a14, a15, a16, a17, a18, a19, a20, a21, a22, a23, a24, a25⟩ := hI
-  simp only [LndModel.C08.step] at h; split at h <;> cases h; constructor <;> life_grind
-
-theorem inv_refwdResp {s s' : Pair P} (hI : Inv H hash s) (h : step H hash s (.refwdResp) = some s') :
-    Inv H hash s' := by
-  obtain ⟨a1, a2, a3, a4, a5, a6, a7, a8, a9, a10, a11, a12, a13, a14, a15, a16, a17, a18, a19, a20, a21, a22, a23, a24, a25⟩ := hI
-  simp only [LndModel.C08.step] at h
-  split at h
-  · split at h <;> cases h; constructor <;> life_grind
-  · cases h
-
-theorem inv_ackDup {s s' : Pair P} (hI : Inv H hash s) (h : step H hash s (.ackDup) = some s') :
-    Inv H hash s' := by
-  obtain ⟨a1, a2, a3, a4, a5, a6, a7, a8, a9, a10, a11, a12, a13, a14, a15, a16, a17, a18, a19, a20, a21, a22, a23, a24, a25⟩ := hI
-  simp only [LndModel.C08.step] at h; split at h <;> cases h; constructor <;> life_grind
-
-theorem inv_localReject {s s' : Pair P} (hI : Inv H hash s) (h : step H hash s (.localReject) = some s') :
-    Inv H hash s' := by
-  obtain ⟨a1, a2, a3, a4, a5, a6, a7, a8, a9, a10, a11, a12, a13, a14, a15, a16, a17, a18, a19, a20, a21, a22, a23, a24, a25⟩ := hI
-  simp only [LndModel.C08.step] at h; split at h <;> cases h; constructor <;> life_grind
-
-theorem inv_sendDownAdd {s s' : Pair P} (hI : Inv H hash s) (h : step H hash s (.sendDownAdd) = some s') :
-    Inv H hash s' := by
-  obtain ⟨a1, a2, a3, a4, a5, a6, a7, a8, a9, a10, a11, a12, a13, a14, a15, a16, a17, a18, a19, a20, a21, a22, a23, a24, a25⟩ := hI
-  simp only [LndModel.C08.step] at h; split at h <;> cases h; constructor <;> life_grind
-
-theorem inv_relayUp {s s' : Pair P} (r : Res P) (hI : Inv H hash s) (h : step H hash s (.relayUp r) = some s') :
-    Inv H hash s' := by
-  obtain ⟨a1, a2, a3, a4, a5, a6, a7, a8, a9, a10, a11, a12, a13, a14, a15, a16, a17, a18, a19, a20, a21, a22, a23, a24, a25⟩ := hI
-  simp only [LndModel.C08.step] at h; split at h <;> cases h; constructor <;> life_grind
-
-theorem inv_resendUp {s s' : Pair P} (hI : Inv H hash s) (h : step H hash s (.resendUp) = some s') :
-    Inv H hash s' := by
-  obtain ⟨a1, a2, a3, a4, a5, a6, a7, a8, a9, a10, a11, a12, a13, a14, a15, a16, a17, a18, a19, a20, a21, a22, a23, a24, a25⟩ := hI
-  simp only [LndModel.C08.step] at h; split at h <;> cases h; constructor <;> life_grind
-
-theorem inv_resendDown {s s' : Pair P} (hI : Inv H hash s) (h : step H hash s (.resendDown) = some s') :
-    Inv H hash s' := by
-  obtain ⟨a1, a2, a3, a4, a5, a6, a7, a8, a9, a10, a11, a12, a13, a14, a15, a16, a17, a18, a19, a20, a21, a22, a23, a24, a25⟩ := hI
-  simp only [LndModel.C08.step] at h; split at h <;> cases h; constructor <;> life_grind
-
-theorem inv_restart {s s' : Pair P} (hI : Inv H hash s) (h : step H hash s (.restart) = some s') :
-    Inv H hash s' := by
-  obtain ⟨a1, a2, a3, a4, a5, a6, a7, a8, a9, a10, a11, a12, a13, a14, a15, a16, a17, a18, a19, a20, a21, a22, a23, a24, a25⟩ := hI
-  rcases s with ⟨up, down, circ, fwdFilter, addAcked, resp, respAcked, mbAdd, mbResp, known, sentUp, signedUp, downCommitted, downAdds, envBad⟩
-  dsimp only at *
-  simp only [LndModel.C08.step, stepRestart] at h; cases h
-  rcases up with _ | st | _ | ⟨r, st⟩ | r <;> (try cases st) <;> rcases down with _ | st | _ | ⟨r, st⟩ | r <;> (try cases st) <;> dsimp only [Life.restart] at * <;> constructor <;> life_grind
-
-theorem Inv.step {s s' : Pair P} {e : Ev P} (hI : Inv H hash s) (h : step H hash s e = some s') :
-    Inv H hash s' := by
-  cases e with
-  | upAdd  => exact inv_upAdd H hash hI h
-  | downSettle p => exact inv_downSettle H hash p hI h
-  | downFail  => exact inv_downFail H hash hI h
-  | upSigPeer  => exact inv_upSigPeer H hash hI h
-  | upRevPeer  => exact inv_upRevPeer H hash hI h
-  | upSigBob  => exact inv_upSigBob H hash hI h
-  | upRevBob  => exact inv_upRevBob H hash hI h
-  | downSigBob  => exact inv_downSigBob H hash hI h
-  | downRevBob  => exact inv_downRevBob H hash hI h
-  | downSigPeer  => exact inv_downSigPeer H hash hI h
-  | downRevPeer  => exact inv_downRevPeer H hash hI h
-  | setFwdFilter  => exact inv_setFwdFilter H hash hI h
-  | commitCircuit  => exact inv_commitCircuit H hash hI h
-  | reforward  => exact inv_reforward H hash hI h
-  | switchFail  => exact inv_switchFail H hash hI h
-  | refwdResp  => exact inv_refwdResp H hash hI h
-  | ackDup  => exact inv_ackDup H hash hI h
-  | localReject  => exact inv_localReject H hash hI h
-  | sendDownAdd  => exact inv_sendDownAdd H hash hI h
-  | relayUp r => exact inv_relayUp H hash r hI h
-  | resendUp  => exact inv_resendUp H hash hI h
-  | resendDown  => exact inv_resendDown H hash hI h
-  | restart  => exact inv_restart H hash hI h
 
 end
 
